@@ -497,6 +497,20 @@ def tie_inlining(res, rng, n):
                 res.violation('impl-violation', 'inline_cells: ' + why,
                               {'input': {'cells': cells, 'score': score},
                                'observed': out}, found_input=True)
+    groups = (
+        ('c13_size', 'geom * N * list Z', 'check_size', size_cases),
+        ('c13_occ', 'list (Z * mcell) * res (list (Z * list Z))',
+         'check_occ', occ_cases),
+        ('c13_inline', 'list (Z * mcell) * list Z * res (list (Z * mcell))',
+         'check_inline', inl_cases),
+        ('c13_score', 'list (Z * mcell) * float * res (list (Z * mcell))',
+         'check_inline_score', score_cases))
+    # the four groups of generated files are independent: compile them together
+    from concurrent.futures import ThreadPoolExecutor
+    with ThreadPoolExecutor(max_workers=4) as pool:
+        futs = {g[0]: pool.submit(common.run_case_files, g[0], HEADER, g[1],
+                                  g[2], g[3], 100) for g in groups}
+        results = {k: f.result() for k, f in futs.items()}
     for name, typ, fun, cases in (
             ('c13_size', 'geom * N * list Z', 'check_size', size_cases),
             ('c13_occ', 'list (Z * mcell) * res (list (Z * list Z))',
@@ -505,7 +519,7 @@ def tie_inlining(res, rng, n):
              'check_inline', inl_cases),
             ('c13_score', 'list (Z * mcell) * float * res (list (Z * mcell))',
              'check_inline_score', score_cases)):
-        bad, errs = common.run_case_files(name, HEADER, typ, fun, cases)
+        bad, errs = results[name]
         res.obligation(f'tie:{name[4:]} ({len(cases)} cases: implementation = '
                        'model)', not bad and not errs,
                        f'{len(bad)} disagreements {errs[:1]}')
